@@ -66,7 +66,8 @@ def base_kernel(draw, d_in, batch, names=None, allow_ad=True, psd_only=False):
         d = 1
     elif allow_ad and d_in >= 2 and draw(st.integers(0, 3)) == 0:
         k = draw(st.integers(1, d_in - 1))
-        ad = draw(st.permutations(list(range(d_in))).map(lambda p: sorted(p[:k])))
+        # any order: active_dims=(2, 0) selects column 2 first (matters for ARD parameters)
+        ad = draw(st.permutations(list(range(d_in))).map(lambda p: list(p[:k])))
         d = k
     r = {"k": name, "batch": batch, "ad": ad, "d": d, "p": {}}
     ard = False
